@@ -112,6 +112,19 @@ Theorem C12_restore_is_the_source : forall m sn, wf m = true -> NoDup (map fst (
 Proof. exact restore_bridge. Qed.
 Print Assumptions C12_restore_is_the_source.
 
+(* THE ROUND TRIP OVER THE SOURCE'S PIECES ONLY: what get_persisted_snapshot writes (as sliced), fed to from_snapshot (as translated),
+   succeeds and gives back the configuration as a set, every history lookup, context, status and output, with nothing queued or armed -
+   for every well-formed machine and every ancestor-closed, duplicate-free configuration with a consistent history store *)
+Theorem C12_source_round_trip : forall m s sn,
+  wf m = true -> Forall (fun x => x < size m) (s_cfg s) -> closed m (s_cfg s) -> NoDup (s_cfg s) ->
+  Forall (fun e => snd e <> []) (s_hist s) -> NoDup (map fst (s_hist s)) -> hist_known m (s_hist s) = true ->
+  persist_by m s persist_fields = Some sn ->
+  exists r, restore_src m sn = Some r
+    /\ Permutation (s_cfg r) (s_cfg s) /\ (forall p, hist_get (s_hist r) p = hist_get (s_hist s) p)
+    /\ s_ctx r = s_ctx s /\ s_status r = s_status s /\ s_output r = s_output s /\ s_queue r = [] /\ s_pending r = [].
+Proof. exact source_round_trip. Qed.
+Print Assumptions C12_source_round_trip.
+
 (* get_persisted_snapshot: the five fields it writes of the interpreter's own state (status, deep-copied context, SORTED ids of the
    active set, output, the history lists in stored order), as sliced from the source, are the model's persist *)
 Theorem C12_persist_is_the_source : forall m s, persist_by m s persist_fields = Some (persist m s).
@@ -137,6 +150,13 @@ Example C12_ex :
   | Some r => s_cfg r = [0; 1; 2; 4; 5; 6] /\ s_hist r = s_hist s /\ persist ex_m r = persist ex_m s
   | None => False end
   /\ restore ex_m {| sn_status := Running; sn_ctx := []; sn_cfg := [0; 42]; sn_output := None; sn_hist := [] |} = None.
+Proof. vm_compute. auto. Qed.
+Example C12_source_round_trip_ex :
+  let s := mk [0; 1; 5; 6; 2; 4] [(1, [2; 5; 4; 6])] [(0, 7%Z)] [] Running None [] 0 0 [] 0 in
+  wf ex_m = true /\ hist_known ex_m (s_hist s) = true /\
+  match persist_by ex_m s persist_fields with
+  | Some sn => match restore_src ex_m sn with Some r => s_cfg r = [0; 1; 2; 4; 5; 6] /\ s_hist r = s_hist s | None => False end
+  | None => False end.
 Proof. vm_compute. auto. Qed.
 Example C12_source_restore_ex :
   wf ex_m = true /\ restore_cfg_src ex_m [6; 4] = Some [6; 5; 1; 0; 4; 2] /\ restore_cfg_src ex_m [6; 42] = None
